@@ -268,7 +268,13 @@ pub fn gen_project(d: &Data, r: &mut Rng, bad: Option<&str>) -> Project {
                 r.shuffle(&mut idx);
                 let cnt = r.range(1, named.len().min(4));
                 idx.truncate(cnt);
-                Some((k, idx.iter().map(|&i| random_case(&named[i].name, r)).collect()))
+                let mut list: Vec<String> = idx.iter().map(|&i| random_case(&named[i].name, r)).collect();
+                if k == '~' && r.chance(1, 5) {
+                    // the list is an ordered sequence: a group may be named (and applied) again
+                    let again = random_case(&named[idx[r.below(idx.len())]].name, r);
+                    list.push(again);
+                }
+                Some((k, list))
             } else {
                 None
             };
